@@ -41,8 +41,9 @@ import (
 	"verif/harness/internal/tr"
 )
 
-const maxCalls = 12 // Calls of Lanes_Trace.cfg
-const maxHashes = 8 // Hashes of Lanes_Trace.cfg
+const maxCalls = 12          // Calls of Lanes_Trace.cfg
+const maxHashes = 8          // Hashes of Lanes_Trace.cfg
+const stopper = maxCalls + 1 // the qx worker the owner's Stop is issued on
 
 // ---------------------------------------------------------------- identities carried by values
 
@@ -127,31 +128,33 @@ type call struct {
 	fail    bool
 	pre     bool
 	ctx     *vctx
-	gate    chan struct{}
+	gate    chan string // "stop": the callee calls Stop itself and waits again; "end": it returns
+	ended   int32       // the gate has been opened (a second entry into the callee does not wait)
 	gated   bool
 	status  string // idle | parked | back
-	running int32  // callee entered and parked on the gate
+	running int32  // 1: callee entered and parked on the gate; 2: callee inside Stop
 }
 
 type world struct {
-	kind      string
-	nl, qsize int
-	ln        *line.Line
-	ml        *mline.MultiLine
-	rq        *async.RunnerQ
-	pc        *async.ProcChan
-	wg        *sync.WaitGroup
-	x         *qx.Exec
-	log       *evlog
-	calls     []*call // 1-based
-	started   bool
-	stopped   bool
-	term      int32
-	frag      string
-	base      int
-	hclass    map[int]int // actual hash -> class
-	withIdx   bool
-	spin      int
+	kind       string
+	nl, qsize  int
+	ln         *line.Line
+	ml         *mline.MultiLine
+	rq         *async.RunnerQ
+	pc         *async.ProcChan
+	wg         *sync.WaitGroup
+	x          *qx.Exec
+	log        *evlog
+	calls      []*call // 1-based
+	started    bool
+	stopIssued int32 // Stop has been called by somebody
+	stopFrom   int   // stress: the callee of this call calls Stop itself
+	term       int32
+	frag       string
+	base       int
+	hclass     map[int]int // actual hash -> class
+	withIdx    bool
+	spin       int
 }
 
 type procT struct {
@@ -182,7 +185,7 @@ func newWorld(kind string, nl, qsize int, withIdx bool) *world {
 	}
 	wd.calls = make([]*call, maxCalls+1)
 	for i := 1; i <= maxCalls; i++ {
-		wd.calls[i] = &call{id: i, ctx: newCtx(i), gate: make(chan struct{}), status: "idle"}
+		wd.calls[i] = &call{id: i, ctx: newCtx(i), gate: make(chan string), status: "idle"}
 	}
 	wd.base = wd.pkgGoroutines()
 	return wd
@@ -196,10 +199,21 @@ func (wd *world) callee(ctx context.Context, lane int, id int) (interface{}, err
 	c := wd.calls[id]
 	wd.log.addStart(id, lane, goid())
 	if c.gated {
-		atomic.StoreInt32(&c.running, 1)
-		<-c.gate
+		for atomic.LoadInt32(&c.ended) == 0 {
+			atomic.StoreInt32(&c.running, 1)
+			cmd := <-c.gate
+			if cmd == "stop" { // an actor handling its own shutdown command
+				atomic.StoreInt32(&c.running, 2)
+				wd.doStop(id)
+				continue
+			}
+			break
+		}
 		atomic.StoreInt32(&c.running, 0)
 	} else {
+		if wd.stopFrom == id {
+			wd.doStop(id)
+		}
 		for i := 0; i < wd.spin; i++ {
 			runtime.Gosched()
 		}
@@ -297,8 +311,11 @@ func (wd *world) doRun() {
 	}
 }
 
-func (wd *world) doStop() {
-	wd.log.add(tr.E{"ev": "stopi"})
+// doStop calls Stop on the calling goroutine (a harness worker, a stress goroutine or a callee);
+// `stopr` is logged only when Stop has returned.
+func (wd *world) doStop(by int) {
+	atomic.StoreInt32(&wd.stopIssued, 1)
+	wd.log.add(tr.E{"ev": "stopi", "by": by})
 	switch wd.kind {
 	case "line":
 		wd.ln.Stop()
@@ -309,8 +326,7 @@ func (wd *world) doStop() {
 	case "pchan":
 		wd.pc.Stop()
 	}
-	wd.log.add(tr.E{"ev": "stopr"})
-	wd.stopped = true
+	wd.log.add(tr.E{"ev": "stopr", "by": by})
 }
 
 // prepare fixes the parameters of call c and logs its invocation (and, once per hash class, what
@@ -372,6 +388,7 @@ type act struct {
 	H     int    `json:"h"`
 	Fail  bool   `json:"fail"`
 	Pre   bool   `json:"pre"`
+	By    int    `json:"by"`
 	Kind  string `json:"kind"`
 	Nl    int    `json:"nl"`
 	Qsize int    `json:"qsize"`
@@ -382,7 +399,10 @@ func (wd *world) applicable(a act) bool {
 	case "run":
 		return !wd.started
 	case "stopi":
-		return true
+		if a.By == 0 {
+			return !wd.x.Busy(stopper)
+		}
+		return a.By >= 1 && a.By <= maxCalls && atomic.LoadInt32(&wd.calls[a.By].running) == 1
 	case "inv":
 		return a.C >= 1 && a.C <= maxCalls && wd.calls[a.C].status == "idle"
 	case "end":
@@ -397,8 +417,12 @@ func (wd *world) step(a act) {
 	switch a.Op {
 	case "run":
 		wd.doRun()
-	case "stopi":
-		wd.doStop()
+	case "stopi": // never on the driver: Stop may legitimately wait for the lanes
+		if a.By == 0 {
+			wd.x.Issue(stopper, func() interface{} { wd.doStop(0); return 0 })
+		} else {
+			wd.calls[a.By].gate <- "stop"
+		}
 	case "inv":
 		c := wd.calls[a.C]
 		if !wd.prepare(c, a.H, a.Fail, a.Pre, true) {
@@ -407,7 +431,8 @@ func (wd *world) step(a act) {
 		c.status = "parked"
 		wd.x.Issue(c.id, func() interface{} { return wd.submit(c) })
 	case "end":
-		close(wd.calls[a.C].gate)
+		atomic.StoreInt32(&wd.calls[a.C].ended, 1)
+		wd.calls[a.C].gate <- "end"
 	case "cancel":
 		wd.log.add(tr.E{"ev": "cancel", "c": a.C})
 		wd.calls[a.C].ctx.cancel()
@@ -429,7 +454,12 @@ func (wd *world) settle() {
 			wd.log.add(tr.E{"ev": "ret", "c": i, "r": r.(tr.E)})
 		}
 	}
-	wd.log.add(tr.E{"ev": "quiet", "alive": wd.alive(), "term": atomic.LoadInt32(&wd.term) == 1})
+	wd.x.Take(stopper)
+	wd.quiet(false)
+}
+
+func (wd *world) quiet(final bool) {
+	wd.log.add(tr.E{"ev": "quiet", "alive": wd.alive(), "term": atomic.LoadInt32(&wd.term) == 1, "final": final})
 }
 
 // drain ends the plan: consumers started, every gate opened, executor stopped - so that the last
@@ -438,7 +468,7 @@ func (wd *world) drain() {
 	if !wd.started {
 		wd.step(act{Op: "run"})
 	}
-	for round := 0; round < 4*maxCalls; round++ {
+	for round := 0; round < 6*maxCalls; round++ {
 		found := false
 		for i := 1; i <= maxCalls; i++ {
 			if atomic.LoadInt32(&wd.calls[i].running) == 1 {
@@ -448,13 +478,18 @@ func (wd *world) drain() {
 			}
 		}
 		if !found {
-			if !wd.stopped {
+			if atomic.LoadInt32(&wd.stopIssued) == 0 {
 				wd.step(act{Op: "stopi"})
 				continue
 			}
 			break
 		}
 	}
+	// consumers started, Stop called, every gate a callee reached opened: what is parked now stays
+	// parked.  The spec decides whether this is a proper end (Final).
+	wd.log.mu.Lock()
+	wd.log.evs[len(wd.log.evs)-1]["final"] = true
+	wd.log.mu.Unlock()
 	wd.x.Stop()
 }
 
@@ -467,7 +502,7 @@ func (wd *world) flush(w *tr.W, src string) {
 
 func runPlan(w *tr.W, src, kind string, nl, qsize int, withIdx bool, plan []act) {
 	wd := newWorld(kind, nl, qsize, withIdx)
-	wd.x = qx.New(maxCalls)
+	wd.x = qx.New(maxCalls + 1)
 	for _, a := range plan {
 		if !wd.applicable(a) {
 			continue // the verdict is about what is recorded; skipping only loses coverage
@@ -518,11 +553,15 @@ func randPlan(rng *rand.Rand, nl, n int) []act {
 		case x < 90:
 			out = append(out, act{Op: "run"})
 		case x < 94:
-			out = append(out, act{Op: "stopi"})
+			by := 0
+			if rng.Intn(3) == 0 {
+				by = rng.Intn(maxCalls) + 1 // the callee of that call, if it is running then
+			}
+			out = append(out, act{Op: "stopi", By: by})
 		default:
 			if next <= maxCalls { // burst: fill a lane
 				h := pool[rng.Intn(len(pool))]
-				for k := 0; k < 3 && next <= maxCalls; k++ {
+				for n := 3 + rng.Intn(3); n > 0 && next <= maxCalls; n-- {
 					out = append(out, act{Op: "inv", C: next, H: h, Fail: false, Pre: false})
 					next++
 				}
@@ -569,7 +608,9 @@ func readPlan(path string) []act {
 
 // ---------------------------------------------------------------- stress mode
 
-func runStress(w *tr.W, rng *rand.Rand, kind string, nl, qsize, threads, per int, earlyStop bool) {
+// stopMode 0: Stop when all callers are done; 1: Stop from a goroutine of its own after a random
+// number of calls; 2: the callee of a random call calls Stop itself.
+func runStress(w *tr.W, rng *rand.Rand, kind string, nl, qsize, threads, per int, stopMode int) {
 	wd := newWorld(kind, nl, qsize, true)
 	wd.x = qx.New(0)
 	wd.spin = rng.Intn(4)
@@ -587,6 +628,9 @@ func runStress(w *tr.W, rng *rand.Rand, kind string, nl, qsize, threads, per int
 		}
 	}
 	stopAfter := rng.Intn(threads*per + 1)
+	if stopMode == 2 {
+		wd.stopFrom = 1 + rng.Intn(threads*per)
+	}
 	var next, done int32
 	var prep sync.Mutex // id allocation + inv logging are one step, so ids increase along the log
 	var cwg sync.WaitGroup
@@ -616,8 +660,8 @@ func runStress(w *tr.W, rng *rand.Rand, kind string, nl, qsize, threads, per int
 				}
 				r := wd.submit(c)
 				wd.log.add(tr.E{"ev": "ret", "c": id, "r": r})
-				if earlyStop && int(atomic.AddInt32(&done, 1)) == stopAfter {
-					wd.doStop()
+				if stopMode == 1 && int(atomic.AddInt32(&done, 1)) == stopAfter {
+					go wd.doStop(0)
 				}
 			}
 		}()
@@ -626,15 +670,13 @@ func runStress(w *tr.W, rng *rand.Rand, kind string, nl, qsize, threads, per int
 	if err := wd.x.Settle(); err != nil {
 		tr.Fatal("stress: %v", err)
 	}
-	if !wd.stopped {
-		wd.doStop()
+	if atomic.LoadInt32(&wd.stopIssued) == 0 {
+		go wd.doStop(0) // never on this goroutine: Stop may wait, and a Stop that never returns is the spec's business
 		if err := wd.x.Settle(); err != nil {
 			tr.Fatal("stress: %v", err)
 		}
 	}
-	wd.log.mu.Lock()
-	wd.log.evs = append(wd.log.evs, tr.E{"ev": "quiet", "alive": wd.alive(), "term": atomic.LoadInt32(&wd.term) == 1})
-	wd.log.mu.Unlock()
+	wd.quiet(true)
 	wd.flush(w, "stress")
 }
 
@@ -692,7 +734,7 @@ func main() {
 			nl = lanesL[rng.Intn(len(lanesL))]
 		}
 		threads := 2 + rng.Intn(3)
-		runStress(sw, rng, kind, nl, qsL[rng.Intn(len(qsL))], threads, maxCalls/threads, rng.Intn(3) > 0)
+		runStress(sw, rng, kind, nl, qsL[rng.Intn(len(qsL))], threads, maxCalls/threads, rng.Intn(4)%3)
 	}
 	sw.Close()
 	fmt.Printf("step_events=%d stress_events=%d\n", w.N(), sw.N())
